@@ -1,18 +1,18 @@
 import TlsProofs.Order
 /-
   C06 proof support: facts about one step of the automaton and the link between the observable run
-  (`feed`, `hsRun`, epochs, alignment) and the kind-level run `hsRunK`.
+  (`feed`, `hsRun`, epochs, fragments, alignment) and the kind-level run `hsRunK`.
 -/
 namespace Tls.Order
 
-theorem stepK_false (c : Cfg) (s : St) (k : MsgKind) : stepK c s k false = stepK0 c s k := by
+theorem stepK_false (c : Cfg) (s : St) (n : Nat) (k : MsgKind) : stepK c s n k false = stepK0 c s n k := by
   simp [stepK]
 
 /-- `plus` (further handshake bytes follow in the record) can only turn an accepted message into
     an `unexpected_message` abort (by `_getMsg`, or by the flow for the first hello) -/
-theorem stepK_plus (c : Cfg) (s : St) (k : MsgKind) (p : Bool) :
-    stepK c s k p = stepK0 c s k ∨ stepK c s k p = .abort .unexpected_message ∨
-    (stepK c s k p = .acceptAbort .unexpected_message ∧ firstHello c s k = true) := by
+theorem stepK_plus (c : Cfg) (s : St) (n : Nat) (k : MsgKind) (p : Bool) :
+    stepK c s n k p = stepK0 c s n k ∨ stepK c s n k p = .abort .unexpected_message ∨
+    (stepK c s n k p = .acceptAbort .unexpected_message ∧ firstHello c s k = true) := by
   unfold stepK
   simp only []
   split
@@ -21,26 +21,78 @@ theorem stepK_plus (c : Cfg) (s : St) (k : MsgKind) (p : Bool) :
     · rename_i h; exact Or.inr (Or.inr ⟨rfl, by simp_all⟩)
     · exact Or.inl rfl
 
-/-- outside `done`, `_getMsg` never delivers data, never processes a post-handshake message and
-    never answers with a warning -/
-theorem stepK0_hs (c : Cfg) (s : St) (k : MsgKind) (hd : s ≠ .done) :
-    stepK0 c s k ≠ .warn ∧ stepK0 c s k ≠ .deliver ∧ stepK0 c s k ≠ .post := by
-  cases s <;> simp [stepK0] at hd ⊢ <;>
+/-- during the handshake the number of outstanding post-handshake requests plays no role -/
+theorem stepK0_outstanding (c : Cfg) (s : St) (n : Nat) (k : MsgKind) (hp : s.isPost = false) :
+    stepK0 c s n k = stepK0 c s 0 k := by
+  cases s <;> first | rfl | simp [St.isPost] at hp
+
+theorem stepK_outstanding (c : Cfg) (s : St) (n : Nat) (k : MsgKind) (p : Bool) (hp : s.isPost = false) :
+    stepK c s n k p = stepK c s 0 k p := by
+  unfold stepK; rw [stepK0_outstanding c s n k hp]
+
+/-- before completion `_getMsg` never delivers data, never processes a post-handshake message,
+    never starts a post-handshake authentication flight and never answers with a warning -/
+theorem stepK0_hs (c : Cfg) (s : St) (n : Nat) (k : MsgKind) (hp : s.isPost = false) :
+    stepK0 c s n k ≠ .warn ∧ stepK0 c s n k ≠ .deliver ∧ (∀ b, stepK0 c s n k ≠ .post b) ∧
+    (∀ s', stepK0 c s n k ≠ .phaStart s') ∧ (∀ k', stepK0 c s n k ≠ .buffer k') := by
+  cases s <;> simp [St.isPost] at hp <;> simp [stepK0] <;>
     (cases stepHs c _ k <;> simp [HsOut.toOut])
 
-theorem stepK_hs (c : Cfg) (s : St) (k : MsgKind) (p : Bool) (hd : s ≠ .done) :
-    stepK c s k p ≠ .warn ∧ stepK c s k p ≠ .deliver ∧ stepK c s k p ≠ .post := by
-  rcases stepK_plus c s k p with h | h | ⟨h, _⟩
-  · rw [h]; exact stepK0_hs c s k hd
+theorem stepK_hs (c : Cfg) (s : St) (n : Nat) (k : MsgKind) (p : Bool) (hp : s.isPost = false) :
+    stepK c s n k p ≠ .warn ∧ stepK c s n k p ≠ .deliver ∧ (∀ b, stepK c s n k p ≠ .post b) ∧
+    (∀ s', stepK c s n k p ≠ .phaStart s') ∧ (∀ k', stepK c s n k p ≠ .buffer k') := by
+  rcases stepK_plus c s n k p with h | h | ⟨h, _⟩
+  · rw [h]; exact stepK0_hs c s n k hp
   · rw [h]; simp
   · rw [h]; simp
 
+/-- a piece that is the head of a fragmented handshake message -/
+def Msg.isHead (m : Msg) : Bool := m.part == .head && m.kind.isHandshake
 
+/-- the three shapes of `step`: a complete message goes through `_getMsg`, a head is buffered,
+    or the record layer / the defragmenter ends the connection -/
+theorem step_shape (c : Cfg) (r : Run) (m : Msg) :
+    (∃ p, step c r m = stepK c r.st r.outstanding m.kind p ∧ m.isHead = false) ∨
+    (step c r m = .buffer m.kind ∧ m.isHead = true) ∨
+    (∃ a, step c r m = .abort a) ∨
+    (step c r m = .acceptAbort .unexpected_message ∧ m.kind = .ccs ∧ r.pending.isSome = true) := by
+  unfold step Msg.isHead
+  by_cases he : epochOk c r m = true
+  · simp only [he, Bool.not_true, Bool.false_eq_true, if_false]
+    by_cases hh : m.kind.isHandshake = true
+    · simp only [hh, if_true, Bool.and_true]
+      by_cases h1 : (m.part == Part.head) = true
+      · simp only [h1, if_true]
+        by_cases h2 : r.pending.isNone = true
+        · simp only [h2, if_true]; exact Or.inr (Or.inl (by simp))
+        · simp only [h2]; exact Or.inr (Or.inr (Or.inl ⟨_, rfl⟩))
+      · simp only [h1]
+        have h1' : (m.part == Part.head) = false := by simpa using h1
+        by_cases h3 : (m.part == Part.tail) = true
+        · simp only [h3, if_true]
+          by_cases h4 : (r.pending == some m.kind) = true
+          · simp only [h4, if_true]; exact Or.inl ⟨m.plus, by simp⟩
+          · simp only [h4]; exact Or.inr (Or.inr (Or.inl ⟨_, rfl⟩))
+        · simp only [h3]
+          by_cases h2 : r.pending.isNone = true
+          · simp only [h2, if_true]; exact Or.inl ⟨m.plus, by simp⟩
+          · simp only [h2]; exact Or.inr (Or.inr (Or.inl ⟨_, rfl⟩))
+    · simp only [hh, Bool.and_false]
+      by_cases h5 : (r.pending.isSome && v13Active c r.st && !ccsDropped c r.st m.kind) = true
+      · simp only [h5, if_true]; exact Or.inr (Or.inr (Or.inl ⟨_, rfl⟩))
+      · simp only [h5]
+        by_cases h6 : (r.pending.isSome && m.kind == MsgKind.ccs && expectsCCS c r.st) = true
+        · simp only [h6, if_true]
+          refine Or.inr (Or.inr (Or.inr ⟨rfl, ?_, ?_⟩)) <;> simp_all
+        · simp only [h6]; exact Or.inl ⟨false, by simp⟩
+  · simp only [he]
+    exact Or.inr (Or.inr (Or.inl ⟨.wrong_epoch, by simp⟩))
 
 /-- where an outcome leaves the coroutine -/
 def Out.target (o : Out) (cur : St) : St :=
   match o with
   | .next s _ => s
+  | .phaStart s => s
   | .acceptAbort _ | .abort _ | .peerClosed | .acceptClosed => .dead
   | _ => cur
 
@@ -51,17 +103,28 @@ theorem apply_st (r : Run) (o : Out) : (apply r o).st = o.target r.st := by
 theorem countRecord_st (c : Cfg) (r : Run) (m : Msg) : (countRecord c r m).st = r.st := by
   unfold countRecord; split <;> rfl
 
+theorem clearPending_st (r : Run) (m : Msg) : (clearPending r m).st = r.st := by
+  unfold clearPending; split <;> rfl
+
 theorem feed_st (c : Cfg) (r : Run) (m : Msg) (h : r.st ≠ .dead) :
-    (feed c r m).st = (step c r.st r.epoch r.recsInEpoch m).target r.st := by
+    (feed c r m).st = (step c r m).target r.st := by
   unfold feed
   have : (r.st == St.dead) = false := by simpa using h
   simp only [this, Bool.false_eq_true, if_false]
-  rw [apply_st, countRecord_st]
+  rw [apply_st, clearPending_st, countRecord_st]
 
 theorem hsRun_dead (c : Cfg) (r : Run) (ms : List Msg) (h : r.st = .dead) : hsRun c r ms = none := by
   cases ms with
   | nil => rfl
   | cons m ms => simp [hsRun, h]
+
+theorem kinds_cons (m : Msg) (ms : List Msg) :
+    kinds (m :: ms) = if m.isHead then kinds ms else m.kind :: kinds ms := by
+  unfold kinds Msg.isHead
+  by_cases h : (m.part == Part.head && m.kind.isHandshake) = true
+  · simp only [List.filter_cons, h, Bool.not_true, Bool.false_eq_true, if_false, if_true]
+  · have h' : (m.part == Part.head && m.kind.isHandshake) = false := by simpa using h
+    simp only [List.filter_cons, h', Bool.not_false, if_true, List.map_cons, Bool.false_eq_true, if_false]
 
 /-- an accepting run of the observable automaton is an accepting run on kinds -/
 theorem hsRun_K (c : Cfg) : ∀ (ms : List Msg) (r r' : Run),
@@ -72,29 +135,41 @@ theorem hsRun_K (c : Cfg) : ∀ (ms : List Msg) (r r' : Run),
   | cons m ms ih =>
     intro r r' h
     unfold hsRun at h
-    by_cases hg : (r.st == St.dead || r.st == St.done) = true
+    by_cases hg : (r.st == St.dead || r.st.isPost) = true
     · simp [hg] at h
     · simp only [hg] at h
       have hnd : r.st ≠ .dead := by intro e; simp [e] at hg
-      have hndone : r.st ≠ .done := by intro e; simp [e] at hg
+      have hpost : r.st.isPost = false := by
+        cases hq : r.st.isPost
+        · rfl
+        · simp [hq] at hg
+      have hndone : r.st ≠ .done := by intro e; simp [e, St.isPost] at hpost
       have hst := feed_st c r m hnd
-      simp only [kinds, List.map_cons]
-      unfold hsRunK
-      simp only [hg]
-      -- what the step was
       have hdeadcase : ∀ (x : Run), x.st = .dead →
           (if (x.st == St.done) = true then (if ms.isEmpty = true then some x else none) else hsRun c x ms) = some r' → False := by
         intro x hx hh
         simp [hx, hsRun_dead c x ms hx] at hh
-      unfold step at hst
-      by_cases he : epochOk c r.st r.epoch r.recsInEpoch m = true
-      · simp only [he, if_true] at hst
-        rcases stepK_plus c r.st m.kind m.plus with hp | hp | ⟨hp, _⟩
+      have hsame : (feed c r m).st = r.st → hsRunK c r.st (kinds ms) = true := by
+        intro hst'
+        have hd' : ((feed c r m).st == St.done) = false := by rw [hst']; simpa using hndone
+        simp only [hd'] at h
+        have := ih (feed c r m) r' (by simpa using h)
+        rw [hst'] at this
+        exact this
+      rw [kinds_cons]
+      rcases step_shape c r m with ⟨p, hs, hnh⟩ | ⟨hs, hh⟩ | ⟨a, hs⟩ | ⟨hs, _, _⟩
+      · -- a complete message went through `_getMsg`
+        simp only [hnh, Bool.false_eq_true, if_false]
+        unfold hsRunK
+        simp only [hg]
+        rw [hs] at hst
+        rw [stepK_outstanding c r.st r.outstanding m.kind p hpost] at hst
+        rcases stepK_plus c r.st 0 m.kind p with hp | hp | ⟨hp, _⟩
         · rw [hp] at hst
           rw [stepK_false]
-          have hhs := stepK0_hs c r.st m.kind hndone
+          have hhs := stepK0_hs c r.st 0 m.kind hpost
           revert hst hhs
-          cases ho : stepK0 c r.st m.kind with
+          cases ho : stepK0 c r.st 0 m.kind with
           | next s b =>
             intro hst _
             simp only [Out.target] at hst
@@ -110,18 +185,15 @@ theorem hsRun_K (c : Cfg) : ∀ (ms : List Msg) (r r' : Run),
               simp only [hd]
               have := ih (feed c r m) r' (by simpa using h)
               rw [hst] at this
-              simpa [kinds] using this
+              exact this
           | ignore =>
             intro hst _
-            simp only [Out.target] at hst
-            have hd' : ((feed c r m).st == St.done) = false := by rw [hst]; simpa using hndone
-            simp only [hd'] at h
-            have := ih (feed c r m) r' (by simpa using h)
-            rw [hst] at this
-            simpa [kinds] using this
+            exact hsame (by simpa [Out.target] using hst)
           | warn => intro _ hh; exact absurd rfl hh.1
           | deliver => intro _ hh; exact absurd rfl hh.2.1
-          | post => intro _ hh; exact absurd rfl hh.2.2
+          | post b => intro _ hh; exact absurd rfl (hh.2.2.1 b)
+          | phaStart s => intro _ hh; exact absurd rfl (hh.2.2.2.1 s)
+          | buffer k => intro _ hh; exact absurd rfl (hh.2.2.2.2 k)
           | acceptAbort a => intro hst _; exact (hdeadcase _ (by simpa [Out.target] using hst) h).elim
           | abort a => intro hst _; exact (hdeadcase _ (by simpa [Out.target] using hst) h).elim
           | peerClosed => intro hst _; exact (hdeadcase _ (by simpa [Out.target] using hst) h).elim
@@ -130,7 +202,14 @@ theorem hsRun_K (c : Cfg) : ∀ (ms : List Msg) (r r' : Run),
           exact (hdeadcase _ (by simpa [Out.target] using hst) h).elim
         · rw [hp] at hst
           exact (hdeadcase _ (by simpa [Out.target] using hst) h).elim
-      · simp only [he] at hst
+      · -- the head of a fragmented message was buffered: invisible on the level of kinds
+        simp only [hh, if_true]
+        rw [hs] at hst
+        exact hsame (by simpa [Out.target] using hst)
+      · rw [hs] at hst
+        exact (hdeadcase _ (by simpa [Out.target] using hst) h).elim
+      · rw [hs] at hst
+        have hk : m.isHead = false := by simp_all [Msg.isHead, MsgKind.isHandshake]
         exact (hdeadcase _ (by simpa [Out.target] using hst) h).elim
 
 end Tls.Order
